@@ -82,7 +82,9 @@ def check_pair(e, op, ta, tb):
         if op == "releq":
             encodings = [((1e6, 1e6 + 1.0), (1e6, 2e6), [0.25, 1e-3]),     # related only through max_relative
                          ((1.0, 1.125), (1.0, 2.0), [0.25, 0.0]),           # related only through epsilon
-                         ((1.0, 1.0), (1.0, 1.0 + 2.0 ** -40), [0.0, 0.0])]  # exact equality only
+                         ((1.0, 1.0), (1.0, 1.0 + 2.0 ** -40), [0.0, 0.0]),  # exact equality only
+                         ((1000.0, 1000.5), (1000.0, 1002.0), [1e-9, 1e-3]),   # distinguishes (epsilon, max_relative) from the swapped order
+                         ((0.0, 5e-4), (0.0, 1.0), [1e-3, 1e-9])]              # ... in the other direction
         else:
             encodings = [((1.0, 1.125), (1.0, 2.0), [0.25]),
                          ((1e22, 1e22), (1e22, 1e22 + 2097152.0), [1.0]),   # relatively tiny, absolutely large difference
